@@ -62,7 +62,10 @@ RULE = ("cells: random recipe trees (shared generator shapes) decorated with adv
         "sitesinks: small generated sites whose recipe / category / site titles (via Markdown, incl. titles that "
         "decode to <b> and quotes), directory names and file names are adversarial, each compared token by token "
         "with its alphabetic twin site (same structure, texts = the original strings, hrefs = the quoted paths) and "
-        "the texts Jinja emitted compared with the model of markupsafe.escape. "
+        "the texts Jinja emitted compared with the model of markupsafe.escape; recipe pages must show their "
+        "(backslash-laden) ingredient names verbatim; tok also holds whole pages of compile_markdown(doc).render(k) "
+        "whose ingredient / step / output names and units contain backslashes, \\1, \\g<0>, $1, quotes (visible "
+        "text of every td against the compiled recipe). "
         "Non-trivial = contains a character outside [A-Za-z0-9 ]; distinct = distinct input")
 
 ADV = ["a", "b", "Z", " ", " ", "<", ">", "&", '"', "'", "\\", "{", "}", "%", "#", "/", "-", "_", ".", "*", ";", "=",
@@ -489,7 +492,8 @@ def gen_sink_site(rng: random.Random) -> Dict[str, Any]:
 
     def recipe(stem: str, title: str) -> Any:
         serv = rng.choice((1, 2))
-        return SG.F(stem + ".md", text=f"# {title} for {serv}\n\nSome prose.\n\n    {serv * 100}g flour\n    2 eggs\n")
+        ing = md_quote(rng.choice(MD_STRINGS) + " flour")
+        return SG.F(stem + ".md", text=f"# {title} for {serv}\n\nSome prose.\n\n    {serv * 100}g {ing}\n    2 eggs\n")
 
     def directory(name: str, with_readme: bool, nrec: int, sub: Any = None) -> Any:
         ch = []
@@ -558,6 +562,19 @@ def twin_site(site: Dict[str, Any]):
     return tw, tmap, dmap, fmap, bare
 
 
+def G_find_source(site: Dict[str, Any], page: str) -> Optional[str]:
+    """Markdown source of the recipe behind a generated recipe page (servesN/<dirs>/<stem>.html)."""
+    parts = page.split("/")[1:]
+    node = site["base"]["ch"][0]
+    for comp in parts[:-1]:
+        node = next((c for c in node["ch"] if c["k"] == "d" and c["name"] == comp), None)
+        if node is None:
+            return None
+    stem = parts[-1][:-5]
+    f = next((c for c in node["ch"] if c["k"] == "f" and c["name"] == stem + ".md"), None)
+    return f["text"] if f else None
+
+
 SINK_RE = re.compile(r"<title>(.*?)</title>|<h1(?: class=\"logo\")?>(.*?)</h1>|<li><a href=\"[^\"]*\">(.*?)</a></li>", re.S)
 
 
@@ -623,6 +640,13 @@ def sitesinks_case(inp: Dict[str, Any]) -> Case:
                 if viol:
                     break
             is_recipe = not p.endswith("index.html")
+            if is_recipe and not viol:
+                src = G_find_source(site, p)
+                mi = re.search(r'g "((?:[^"\\]|\\.)*)"', src or "")
+                if mi:
+                    ing = re.sub(r"\\(.)", r"\1", mi.group(1))
+                    if ing not in "".join(x[1] for x in a if x[0] == "text"):
+                        viol = f"{p}: the ingredient {ing!r} is not in the text of the page"
             ra, rb = raw_sinks(obs["_raw"][p].decode("utf-8")), raw_sinks(obs2["_raw"][pages2[p]].decode("utf-8"))
             if is_recipe:
                 ra, rb = ra[:1], rb[:1]                  # only <title>: the body of a recipe page is not a Jinja sink
@@ -641,6 +665,63 @@ def sitesinks_case(inp: Dict[str, Any]) -> Case:
                 coq_out=coqio.lst([coqio.string(x) for x in emitted], "str"),
                 impl={"texts": len(emitted), "pages": len(obs.get("files", []))}, violation=viol,
                 nontrivial=True, tags=tags)
+
+
+# ---------------------------------------------------------------- recipes rendered through compile_markdown(...).render
+
+MD_STRINGS = ["back\\slash", "a\\\\b", "x\\1y", "\\t", "dir\\temp\\new", "\\g<0>", "\\", "q\"r", "it's", "<b>&amp;", "a&b",
+              "100%", "{x}", "tab\there", "é\\n", "plain", "$1", "\\\\server\\share"]
+
+
+def md_quote(x: str) -> str:
+    return '"' + x.replace("\\", "\\\\").replace('"', '\\"') + '"'
+
+
+def gen_md_doc(rng: random.Random) -> str:
+    """A Markdown recipe whose ingredient, step and output names and free-form units hold backslashes etc."""
+    pick = lambda: md_quote(rng.choice(MD_STRINGS) + rng.choice(["", " ", "x"]) + rng.choice(MD_STRINGS))
+    out1, out2 = pick(), pick()
+    lines = [f"{out1} := {pick()}({pick()}, {{2 {md_quote(rng.choice(MD_STRINGS))}}} {pick()})",
+             f"{out2}, {pick()} := {pick()}(3 {pick()})",
+             f"{pick()}(1/2 of the {out1}, {out2}, {pick()})",
+             f"{pick()}(rest of the {out1}, 100g {pick()})"]
+    return "# Title for 2\n\nProse with a back\\\\slash.\n\n```recipe\n" + "\n".join(lines) + "\n```\n"
+
+
+def md_case(doc: str, scale: Any = 1) -> Optional[Case]:
+    """The page of compile_markdown(doc).render(scale): tokenizer spec vs html.parser, and the visible text of every
+    td against the strings of the compiled (scaled) recipe."""
+    from recipe_grid.markdown import compile_markdown
+    from recipe_grid.renderer.recipe_to_table import recipe_tree_to_table
+    from recipe_grid.renderer.table import Cell
+    try:
+        m = compile_markdown(doc)
+    except Exception:
+        return None
+    viol = None
+    try:
+        page = m.render(scale)
+    except Exception as e:
+        page = ""
+        viol = f"MarkdownRecipe.render raised {type(e).__name__}: {e}"
+    c = tok_case(page)
+    c.input = {"suite": "tok", "doc": doc, "scale": coqio.num_json(scale)}
+    c.tags = ["tok", "tok:markdown-page"]
+    if viol is None:
+        want = []
+        for rs in m.recipes:
+            for r in rs:
+                for tree in r.scale(scale).recipe_trees:
+                    for row in recipe_tree_to_table(tree).cells:
+                        want += [cell_visible(x.value) for x in row if isinstance(x, Cell)]
+        got = td_texts(parse_html(page))
+        if len(got) != len(want):
+            viol = f"{len(got)} td elements for {len(want)} cells"
+        for g, w in zip(got, want):
+            if collapse(g) != collapse(w) and viol is None:
+                viol = f"visible text of a cell is {collapse(g)!r}, the recipe says {collapse(w)!r}"
+    c.violation = viol
+    return c
 
 
 def _suites_empty() -> Dict[str, Suite]:
@@ -696,6 +777,10 @@ def suites(tier: str, seed: int) -> List[Suite]:
         S["tfun"].cases.append(tfun_case(rng.choice(["td", "span", "a", "x-y"]), body, [(k, rand_text(rng, 0, 6)) for k in ks]))
     for _ in range(24 if tier == "quick" else 120):
         S["sitesinks"].cases.append(sitesinks_case({"site": gen_sink_site(rng)}))
+    for _ in range(60 if tier == "quick" else 600):
+        mc = md_case(gen_md_doc(rng), rng.choice([1, 2, Fraction(1, 2)]))
+        if mc is not None:
+            S["tok"].cases.append(mc)
     for su in S.values():
         seen2 = set()
         uniq = []
@@ -712,6 +797,11 @@ def replay(inp: Any) -> Case:
     su = inp.get("suite")
     if su == "cells":
         return cells_case({"tree": inp["tree"], "prefix": inp["prefix"]})
+    if su == "tok" and "doc" in inp:
+        mc = md_case(inp["doc"], coqio.num_unjson(inp["scale"]))
+        if mc is None:
+            raise ValueError("document does not compile")
+        return mc
     if su == "tok":
         return tok_case(inp["html"])
     if su in ("quoteattr", "escape", "markup"):
